@@ -10,8 +10,8 @@ EXTENDS TLC, Naturals, Sequences, Json, IOUtils
 Rec == ndJsonDeserialize(IOEnv.TRACE)
 
 Mismatch(l, kind, sig, exp, obs) ==
-  PrintT("MISMATCH|" \o ToString(l) \o "|" \o kind \o "|" \o ToString(sig) \o "|"
-         \o ToString(exp) \o "|" \o ToString(obs))
+  PrintT("MISMATCH;;;" \o ToString(l) \o ";;;" \o kind \o ";;;" \o ToString(sig) \o ";;;"
+         \o ToString(exp) \o ";;;" \o ToString(obs))
 \* expected value equals observed value, or report and carry on
 \* (IF, never a disjunction: inside an action TLC would explore both disjuncts)
 Expect(l, kind, sig, exp, obs) == IF exp = obs THEN TRUE ELSE Mismatch(l, kind, sig, exp, obs)
@@ -19,18 +19,18 @@ Require(l, kind, sig, cond) == IF cond THEN TRUE ELSE Mismatch(l, kind, sig, "ho
 \* implementation-shaped refinement disagrees although the property holds
 Drift(l, kind, sig, exp, obs) ==
   IF exp = obs THEN TRUE
-  ELSE PrintT("DRIFT|" \o ToString(l) \o "|" \o kind \o "|" \o ToString(sig) \o "|"
-              \o ToString(exp) \o "|" \o ToString(obs))
+  ELSE PrintT("DRIFT;;;" \o ToString(l) \o ";;;" \o kind \o ";;;" \o ToString(sig) \o ";;;"
+              \o ToString(exp) \o ";;;" \o ToString(obs))
 \* generator and specification disagree with each other: tool error, not a verdict
-BadCase(l, why) == PrintT("BADCASE|" \o ToString(l) \o "|" \o why)
+BadCase(l, why) == PrintT("BADCASE;;;" \o ToString(l) \o ";;;" \o why)
 \* branch tag for coverage accounting
-Tag(l, t) == PrintT("TAG|" \o ToString(l) \o "|" \o t)
+Tag(l, t) == PrintT("TAG;;;" \o ToString(l) \o ";;;" \o t)
 
 IsValue(res) == res.outcome = "value"
 IsSome(res)  == res.outcome = "value" /\ res.v.some
 
 TraceAccepted ==
   IF TLCGet("stats").diameter - 1 = Len(Rec) THEN TRUE
-  ELSE PrintT("REJECTED|" \o ToString(TLCGet("stats").diameter - 1) \o "|" \o ToString(Len(Rec)))
+  ELSE PrintT("REJECTED;;;" \o ToString(TLCGet("stats").diameter - 1) \o ";;;" \o ToString(Len(Rec)))
        /\ FALSE
 =============================================================================
